@@ -80,6 +80,14 @@ class CsvDataFile():
         return self.data
 
 
+def _ends_with_closing_quote(t, escapechar):
+    # the last quote of t closes the field unless it is escaped, i.e. preceded
+    # by an odd number of escape characters (an escaped escape character
+    # before the quote does not escape it)
+    body = t[:-1]
+    return (len(body) - len(body.rstrip(escapechar))) % 2 == 0
+
+
 def merge_escape_parts(parts, separator, escapechar):
     try:
         merged_parts = []
@@ -92,9 +100,9 @@ def merge_escape_parts(parts, separator, escapechar):
                     agg.append('"')
                     merged_parts.append(separator.join(agg))
                     agg = None
-            elif len(t) > 0 and t[0] == '"' and t[-1] == '"' and t[-2] != escapechar and agg is None:
+            elif len(t) > 0 and t[0] == '"' and t[-1] == '"' and _ends_with_closing_quote(t, escapechar) and agg is None:
                 merged_parts.append(t)
-            elif len(t) > 0 and t[-1] == '"' and t[-2] != escapechar and agg is not None:
+            elif len(t) > 0 and t[-1] == '"' and _ends_with_closing_quote(t, escapechar) and agg is not None:
                 agg.append(t)
                 merged_parts.append(separator.join(agg))
                 agg = None
